@@ -482,6 +482,28 @@ func (e *End) Written() []byte {
 	return b
 }
 
+// LastWrite returns the data of the most recent write (nil if none).
+func (e *End) LastWrite() []byte {
+	e.mu.Lock()
+	defer e.mu.Unlock()
+	if len(e.taps) == 0 {
+		return nil
+	}
+	return e.taps[len(e.taps)-1].Data
+}
+
+// TakeWritten returns everything written since the last call and forgets it (long runs must not keep every byte).
+func (e *End) TakeWritten() []byte {
+	e.mu.Lock()
+	defer e.mu.Unlock()
+	var b []byte
+	for _, w := range e.taps {
+		b = append(b, w.Data...)
+	}
+	e.taps = e.taps[:0]
+	return b
+}
+
 // Unread is the number of bytes waiting in this end's inbox.
 func (e *End) Unread() int {
 	e.mu.Lock()
